@@ -1,0 +1,68 @@
+/**
+ * @file core/verif.h
+ *
+ * @brief Verification hooks (compiled in only with -DROOTSIM_VERIF)
+ *
+ * With the guard off every macro below expands to nothing and the library is unchanged.
+ * With the guard on, the verification harness (outside this repository) provides the two functions.
+ *
+ * SPDX-FileCopyrightText: 2008-2022 HPDCS Group <rootsim@googlegroups.com>
+ * SPDX-License-Identifier: GPL-3.0-only
+ */
+#pragma once
+
+#ifdef ROOTSIM_VERIF
+#include <stdint.h>
+
+/// Scheduling point identifiers passed to verif_yield()
+enum verif_point {
+	VP_BARRIER_SPIN_DOWN = 1,
+	VP_BARRIER_SPIN_UP,
+	VP_BARRIER_ENTER,
+	VP_QUEUE_INSERT_LOADED,
+	VP_QUEUE_INSERT_CAS_FAIL,
+	VP_QUEUE_SWAP,
+	VP_FLAG_PROCESS,
+	VP_FLAG_ANTI,
+	VP_FLAG_UNPROCESS,
+	VP_GVT_PHASE,
+	VP_GVT_DRAIN_FLUSH,
+	VP_GVT_DRAIN_ROUND,
+	VP_WORKER_LOOP,
+	VP_WORKER_FINI
+};
+
+/// Event kinds passed to verif_trace()
+enum verif_kind {
+	VK_EXTRACT = 1,    ///< a=msg, b=previous flags, c=dest lp
+	VK_FORWARD,        ///< a=msg, b=lp, c=index in p_msgs
+	VK_ROLLBACK,       ///< a=lp, b=past_i, c=restored ref_i
+	VK_ANTI_LOCAL,     ///< a=msg, b=previous flags
+	VK_ANTI_REMOTE,    ///< a=msg
+	VK_UNPROCESS,      ///< a=msg, b=previous flags
+	VK_FOSSIL_FREE,    ///< a=lp, b=msg (tagged pointer), c=index
+	VK_FOSSIL_DONE,    ///< a=lp, b=number of entries dropped
+	VK_FINI_ENTRY,     ///< a=lp, b=msg (tagged pointer), c=index
+	VK_MSG_ALLOC,      ///< a=msg
+	VK_MSG_FREE,       ///< a=msg
+	VK_MSG_FREE_AT_GVT,///< a=msg
+	VK_GVT,            ///< a=bits of the gvt value
+	VK_TERM_VOTE,      ///< a=bits of the gvt value
+	VK_CKPT,           ///< a=lp, b=ref_i
+	VK_DRAIN_STAGE,    ///< a=stage
+	VK_SEND_LOCAL,     ///< a=msg, b=sender lp
+	VK_SEND_REMOTE,    ///< a=msg, b=sender lp
+	VK_SILENT,         ///< a=lp, b=index
+	VK_ANTI_DISCARD,   ///< a=msg, b=previous flags (anti-message consumed without rollback)
+	VK_EARLY_ANTI      ///< a=msg
+};
+
+extern void verif_yield(unsigned point);
+extern void verif_trace(unsigned kind, uint64_t a, uint64_t b, uint64_t c);
+
+#define VERIF_YIELD(p) verif_yield(p)
+#define VERIF_TRACE(k, a, b, c) verif_trace((k), (uint64_t)(a), (uint64_t)(b), (uint64_t)(c))
+#else
+#define VERIF_YIELD(p) ((void)0)
+#define VERIF_TRACE(k, a, b, c) ((void)0)
+#endif
